@@ -308,7 +308,16 @@ def _clause(ev, expected, diag):
 
 def canary_trace(chk: Check, trace, module="RecordTrace"):
     """A trace with one corrupted field must be rejected at that line; an untouched copy
-    must be accepted - otherwise the binding is not doing anything."""
+    must be accepted - otherwise the binding is not doing anything.  `trace` may be a list of
+    traces: the first one that validation accepted is used (a trace that already contains a real
+    violation cannot serve as a canary; if every trace was rejected the violations speak for
+    themselves and the canary is skipped)."""
+    if isinstance(trace, list):
+        ok = [t for t in trace if not t["hdr"].get("waive") and len(t["ev"]) > 1]
+        if not ok:
+            chk.note("canary skipped: no accepted trace available (violations are being reported)")
+            return
+        trace = ok[0]
     good = copy.deepcopy(trace)
     good["hdr"]["waive"] = []
     bad = copy.deepcopy(good)
@@ -324,6 +333,11 @@ def canary_trace(chk: Check, trace, module="RecordTrace"):
         line = 1
     stats, rej = tracecheck.validate(module, [good, bad], shards=1, max_waive_rounds=1)
     lines = {(r["trace"], r["line"]) for r in rej}
+    if any(t == 0 for t, _ in lines):
+        if chk.violations:
+            chk.note("canary skipped: its base trace is rejected by a violation that is being reported")
+            return
+        raise MachineryFailure(f"canary: the untouched copy of an accepted trace was rejected: {lines}")
     if (1, line) not in lines:
         raise MachineryFailure(f"canary: corrupted trace was accepted (expected rejection at line {line}, got {lines})")
     chk.extra["canary_trace_rejected_at_line"] = line
